@@ -41,12 +41,22 @@ def _run_chunk(args):
     k, chunk, limit, tag = args
     res = []
     attempt = 0
+    retried = set()
     while len(res) < len(chunk):
         part = _run_once(k, chunk[len(res):], limit, tag, attempt)
         res.extend(part)
         attempt += 1
         if len(res) < len(chunk):
-            # the worker died on this case (hard crash, memory, uninterruptible hang)
+            # the worker died on this case (killed under memory pressure, hard crash, uninterruptible hang):
+            # try that one case once more on its own before calling it a failure
+            i = len(res)
+            if i not in retried:
+                retried.add(i)
+                alone = _run_once(k, [chunk[i]], limit, tag + "r", attempt)
+                attempt += 1
+                if alone:
+                    res.append(alone[0])
+                    continue
             res.append({"timeout": True, "worker_died": True})
     return k, res
 
